@@ -57,6 +57,18 @@ theorem atomInv_spawn {snap init} {s : Sys} (h : AtomInv snap init s) (k : Nat) 
     simp [this]
     exact h.fresh j (by omega)
 
+theorem atomInv_bump {snap init} {s : Sys} (h : AtomInv snap init s) :
+    AtomInv snap init { s with ver := s.ver + 1 } := by
+  refine ⟨?_, ?_, h.fresh⟩
+  · rcases h.target with h1 | ⟨v, hv, h1⟩
+    · exact Or.inl h1
+    · exact Or.inr ⟨v, by simp; omega, h1⟩
+  · intro j
+    have hj := h.jobs j
+    unfold JobOk at hj ⊢
+    simp only
+    split <;> simp_all <;> omega
+
 theorem atomInv_adv {locked snap init} {s s' : Sys} {j : Nat}
     (h : AtomInv snap init s) (hs : adv locked snap s j = some s') : AtomInv snap init s' := by
   have hj := h.jobs j
@@ -125,6 +137,7 @@ theorem atomInv_step {locked snap init} {s s' : Sys} {l : Label}
   · cases l with
     | mutate => injection hs with hs; subst hs; exact atomInv_spawn h 1
     | spawn => injection hs with hs; subst hs; exact atomInv_spawn h 0
+    | change => injection hs with hs; subst hs; exact atomInv_bump h
     | adv j => exact atomInv_adv h hs
     | fault j => exact atomInv_fault h hs
     | crash =>
@@ -232,6 +245,7 @@ theorem mutex_step {snap} {s s' : Sys} {l : Label}
   · cases l with
     | mutate => injection hs with hs; subst hs; exact mutex_spawn h 1
     | spawn => injection hs with hs; subst hs; exact mutex_spawn h 0
+    | change => injection hs with hs; subst hs; exact h
     | adv j => exact mutex_adv h hs
     | fault j => exact mutex_fault h hs
     | crash => injection hs with hs; subst hs; exact h
@@ -308,6 +322,7 @@ theorem held_step {snap init} {s s' : Sys} {l : Label}
   · cases l with
     | mutate => injection hs with hs; subst hs; exact held_spawn ha h 1
     | spawn => injection hs with hs; subst hs; exact held_spawn ha h 0
+    | change => injection hs with hs; subst hs; exact h
     | adv j => exact held_adv hm h hs
     | fault j => exact held_fault h hs
     | crash => injection hs with hs; subst hs; exact h
@@ -468,6 +483,7 @@ theorem conv_step {snap init} {s s' : Sys} {l : Label}
   · cases l with
     | mutate => injection hs with hs; subst hs; exact conv_spawn 1
     | spawn => injection hs with hs; subst hs; exact conv_spawn 0
+    | change => simp [Label.quiet] at hq
     | adv j => exact conv_adv ha hm h hs
     | fault j => simp [Label.quiet] at hq
     | crash => simp [Label.quiet] at hq
